@@ -20,8 +20,100 @@ let spec_tags cfg tag path =
     else tag in
   if t1 = [] then empty_tag else t1
 
+(* ---- gun-level cases (harness/cmd/hC10/guns.go) ---- *)
+
+let s_sample (s : sample) = Printf.sprintf "%s:%s:%s" (hex_of_bytes s.sm_tags) (string_of_n s.sm_proto) (string_of_n s.sm_net)
+let s_samples (l : sample list) = String.concat " " (Printf.sprintf "n=%d" (List.length l) :: List.map s_sample l)
+
+let cut (sep : char) (s : string) : string * string =
+  match String.index_opt s sep with
+  | Some i -> (String.sub s 0 i, String.sub s (i + 1) (String.length s - i - 1))
+  | None -> (s, "")
+
+let starts p s = String.length s >= String.length p && String.sub s 0 (String.length p) = p
+let after_prefix p s = String.sub s (String.length p) (String.length s - String.length p)
+
+(* the errno the operating system (Linux) yields for a fault the in-process target plays:
+   assumed, not modelled (DESIGN.md C10 "Outside the model") *)
+let os_errno fault =
+  match fault with
+  | "refuse" -> Some 111 | "stall" -> Some 110
+  | "reset" | "connreset" | "truncrst" -> Some 104
+  | "trunc" | "badconnect" -> Some 999
+  | _ -> None
+
+let predict_http gun fault status en depth nto tag path obs =
+  let cfg = { at_enabled = bool_of_field en; at_depth = nat_of_int (int_of_string depth); at_notagonly = bool_of_field nto } in
+  let tagb = bytes_of_hex tag and pathb = bytes_of_hex path in
+  let st = n_of_string status in
+  (* the error value the gun got, as the harness saw it *)
+  let shape_field = List.fold_left (fun acc w -> if starts "shape=" w then after_prefix "shape=" w else acc) "-" (split_blank obs) in
+  let err = if shape_field = "-" then None
+            else let (t, sh) = cut ':' shape_field in Some (bool_of_field t, shape_of_tokens (String.split_on_char '.' sh)) in
+  let fails = (match fault with "ok" | "hookok" | "invalid" | "hookfail0" | "hookfail1" -> false | _ -> true) in
+  let x =
+    match fault, err with
+    | ("trunc" | "truncrst"), Some (t, e) -> XResp (st, BodyErr (t, e))
+    | _, Some (t, e) when fails -> XErr (t, e)
+    | _, _ -> XResp (st, BodyOk) in
+  let h = (match fault with "hookok" -> HOk | "hookfail0" | "hookfail1" -> HFail | _ -> HNone) in
+  let invalid = (fault = "invalid") in
+  let id = n_of_int 7 in
+  let own = base_shoot cfg h invalid id tagb pathb x in
+  let s_one (s : sample) = Printf.sprintf "%s %s %s %s" (hex_of_bytes s.sm_tags) (string_of_n s.sm_proto) (string_of_n s.sm_net) (string_of_n s.sm_id) in
+  let reqs = (match fault with "refuse" | "badconnect" | "connreset" | "invalid" | "hookfail0" | "hookfail1" -> 0 | _ -> 1) in
+  let line own_l hook_n =
+    Printf.sprintf "own=%d hook=%d %s shape=%s reqs=%d" (List.length own_l) hook_n
+      (match own_l with [s] -> s_one s | [] -> "-" | _ -> "many") shape_field reqs in
+  let pred = line own (if fault = "hookfail1" then 1 else 0) in
+  let v =
+    if h = HFail then
+      (* the hook failed: Shoot reports nothing itself; the hook's contract is to report *)
+      verdict (starts "own=0 " obs) "Shoot reported a sample although the Connect hook failed"
+    else begin
+      let want = line [base_spec cfg invalid id tagb pathb x] 0 in
+      if obs <> want then "BAD:expected " ^ want
+      else if fails then
+        (match err, os_errno fault with
+         | None, _ -> "BAD:the exchange failed but the gun saw no error"
+         | Some (t, e), Some n ->
+             let got = int_of_n (get_errno t e) in
+             verdict (got = n && got <> 0) (Printf.sprintf "net code %d for fault %s (expected %d)" got fault n)
+         | Some _, None -> "ok")
+      else "ok"
+    end in
+  (pred, v, gun = "c" || fails || invalid || (cfg.at_enabled && List.length pathb > 1))
+
+let hstep_of kind =
+  if starts "s" kind && kind <> "stall" then HStepOk (n_of_string (after_prefix "s" kind)) else HStepFail
+let gstep_of kind =
+  if kind = "pre" then GSPre else if kind = "tmpl" then GSTmpl else if kind = "badcall" then GSBadCall
+  else if kind = "badpayload" then GSBadPayload
+  else if starts "post" kind then GSCalled (n_of_string (after_prefix "post" kind), true)
+  else GSCalled (n_of_string (after_prefix "st" kind), false)
+let steps_of f field =
+  if field = "-" then [] else
+  List.map (fun st -> let (nm, kind) = cut ':' st in (bytes_of_hex nm, f kind)) (String.split_on_char ',' field)
+
 let predict (c : string) (obs : string) : string * string * bool =
   match split_blank c with
+  | ["http"; gun; fault; status; en; depth; nto; tag; path] -> predict_http gun fault status en depth nto tag path obs
+  | ["hscen"; name; steps] ->
+      let st = steps_of hstep_of steps and nm = bytes_of_hex name in
+      let want = s_samples (hscen_spec nm st) in
+      (s_samples (hscen_shoot nm st), verdict (obs = want) ("expected " ^ want), List.length st > 1)
+  | ["gscen"; name; steps] ->
+      let st = steps_of gstep_of steps and nm = bytes_of_hex name in
+      let want = s_samples (gscen_spec nm st) in
+      (s_samples (gscen_shoot nm st), verdict (obs = want) ("expected " ^ want), List.length st > 1)
+  | ["gshoot"; tag; kind] ->
+      let call = (if kind = "unknown" then GUnknown else if kind = "badpayload" then GBadPayload
+                  else GCalled (n_of_string (after_prefix "st" kind))) in
+      let tg = bytes_of_hex tag in
+      (* specification: one sample, the ammo's tag, the documented code of the call status *)
+      let code = (match call with GUnknown -> n_of_int 0 | GBadPayload -> n_of_int 400 | GCalled s -> doc_code s) in
+      let want = s_samples [{ sm_tags = tg; sm_proto = code; sm_net = n_of_int 0; sm_id = n_of_int 0 }] in
+      (s_samples (grpc_shoot tg call), verdict (obs = want) ("expected " ^ want), true)
   | ["grpc"; code] ->
       let c = n_of_string code in
       let a = string_of_n (grpc_code c) and d = string_of_n (doc_code c) in
